@@ -52,6 +52,20 @@ def extract(repo, o):
     for nm in ("c", "epsilon"):
         v, t = _num_default(bl, src, nm)
         o.flt("BILOC_" + nm.upper(), v, t, f"biweight_location default {nm}")
+    # inner pass of biweight_location: is the outlier mask taken on |u| < 1 BEFORE the weights are formed
+    # (repaired code, fix O) or on the transformed weights `w < 1` (as originally coded)?
+    it = find_func(tree, "biloc_iter")
+    steps = [(n.targets[0].id, ast.unparse(n.value)) for n in it.body
+             if isinstance(n, ast.Assign) and isinstance(n.targets[0], ast.Name) and n.targets[0].id in ("w", "mask")]
+    names = [k for k, _ in steps]
+    if names == ["w", "mask", "w"] and "abs(w) < 1" in steps[1][1]:
+        mask_abs = True
+    elif names == ["w", "w", "mask"] and steps[2][1].replace(" ", "") == "w<1":
+        mask_abs = False
+    else:
+        raise ValueError(f"biloc_iter: unknown mask/weight sequence {steps}")
+    o.defn("BILOC_MASK_ON_ABS_U", "Bool", "true" if mask_abs else "false",
+           "biweight_location: outlier mask is `abs(u) < 1` taken before w = (1-u^2)^2 (true) or `w < 1` after it (false)")
     o.defn("BILOC_MAX_ITER", "Nat", str(int(func_defaults(bl)["max_iter"])), "biweight_location default max_iter")
     iqr = find_func(tree, "interquartile_range")
     pcts = [ast.literal_eval(c.args[1]) for c in ast.walk(iqr)
